@@ -288,7 +288,11 @@ def read_scsv(file):
                 + " Check logging output for details."
             )
         reader = csv.reader(
-            csv_lines, delimiter=schema["delimiter"], skipinitialspace=True
+            csv_lines,
+            delimiter=schema["delimiter"],
+            # Padding after the delimiter is skipped, unless the delimiter is itself a
+            # space, in which case consecutive spaces delimit empty cells.
+            skipinitialspace=schema["delimiter"] != " ",
         )
 
         schema_colnames = [d["name"] for d in schema["fields"]]
